@@ -1019,6 +1019,12 @@ def handleSpec (name : String) (ins ans : List String) : String :=
               | .eom => some "child spawned for an EndOfMessage"))
       | _, _ => "FAIL unparsable"
     | _, _, _ => "FAIL unparsable"
+  | "spec.c14.last", [_label, expect] =>
+    match ans with
+    | [printed] =>
+      verdict (((printed.splitOn ",").getLast?).getD "" == expect)
+        s!"the last line samedec printed is not the message the end of the recording carries (expected {expect.take 9}…, printed {printed})"
+    | _ => "FAIL unparsable"
   | "spec.c12.wait", [_label] =>
     verdict (ans == ["ok"]) s!"samedec did not wait for the child before continuing: {" ".intercalate ans}"
   | "spec.c17.opts", [_opts] =>
